@@ -621,13 +621,65 @@ pub fn generate_section_named(rng: &mut Rng, p: &GenParams, kind: SectionKind, s
     g.lines
 }
 
+/// Stands for three bytes that are not UTF-8 (same length as the mark's own encoding, so byte
+/// offsets computed from the text stay right).
+pub const INVALID_MARK: char = '\u{E000}';
+/// At the end of the last line: the input ends without a final newline.
+pub const NO_FINAL_NEWLINE_MARK: char = '\u{E001}';
+
 pub fn to_bytes(lines: &[GLine]) -> Vec<u8> {
     let mut v = Vec::new();
-    for l in lines {
+    for (i, l) in lines.iter().enumerate() {
+        if i + 1 == lines.len() && l.text.ends_with(NO_FINAL_NEWLINE_MARK) {
+            v.extend_from_slice(l.text.trim_end_matches(NO_FINAL_NEWLINE_MARK).as_bytes());
+            break;
+        }
         v.extend_from_slice(l.text.as_bytes());
         v.push(b'\n');
     }
+    // EE 80 80 is U+E000
+    let mut i = 0;
+    while i + 2 < v.len() {
+        if v[i] == 0xEE && v[i + 1] == 0x80 && v[i + 2] == 0x80 {
+            v[i] = 0xFF;
+            v[i + 1] = 0xC0;
+            v[i + 2] = 0xFE;
+            i += 3;
+        } else {
+            i += 1;
+        }
+    }
     v
+}
+
+/// Properties of the byte stream rather than of the diff: CRLF line ends in file content (all or
+/// some body lines), bytes that are not UTF-8 inside body lines, no newline after the last line.
+/// Returns a label for coverage accounting.
+pub fn add_byte_features(lines: &mut [GLine], rng: &mut Rng) -> String {
+    let crlf = match rng.below(8) {
+        0 => 2,
+        1 => 1,
+        _ => 0,
+    };
+    let invalid = rng.chance(1, 6);
+    let no_final = rng.chance(1, 10);
+    let n = lines.len();
+    for (i, l) in lines.iter_mut().enumerate() {
+        if !matches!(l.kind, LineKind::Context | LineKind::Minus | LineKind::Plus) {
+            continue;
+        }
+        if invalid && l.token.is_some() && rng.chance(1, 4) {
+            l.text.push(INVALID_MARK);
+            l.text.push_str("tail");
+        }
+        if crlf == 2 || (crlf == 1 && rng.chance(1, 3)) {
+            l.text.push('\r');
+        }
+        if no_final && i + 1 == n {
+            l.text.push(NO_FINAL_NEWLINE_MARK);
+        }
+    }
+    format!("crlf{}{}{}", crlf, if invalid { "+invalid-utf8" } else { "" }, if no_final { "+no-final-newline" } else { "" })
 }
 
 pub fn random_params(rng: &mut Rng, pivot: usize) -> GenParams {
